@@ -857,7 +857,14 @@ fn range_bounds(bound: impl RangeBounds<i128>, size: usize) -> Option<(usize, us
         Bound::Included(end) => (*end, 1),
         Bound::Excluded(end) => (*end, 0),
     };
-    let offset = if end >= size { 1 } else { offset };
+    let offset = if end >= size {
+        1
+    } else if end < -size {
+        // (inclusive) end before the first element selects nothing
+        0
+    } else {
+        offset
+    };
     let end = clamp(end + size, 0, 2 * size - 1) % size + offset;
 
     if end <= start {
